@@ -794,22 +794,22 @@ class RGraph:
         assert result_accumdata.commit is None
 
         # ==== prepare fake "not-merged-yet" build info ======
-        all_commits_prev_branch = {
-            iid: commit
-            for rbuild in prev_branch.rbuilds.values()
-            for iid, commit in rbuild.rcommits.items()
-        } if prev_branch is not None else {}
-
-        all_commits_in_this_branch = {
-            iid
-            for rbuild in cur_branch_rbuilds.values()
-            for iid in rbuild.rcommits.keys()
-        }
+        # commits reachable from the head of this branch are merged into it,
+        # even if no build of this branch reports them (it happens when the
+        # head itself belongs to a previously processed branch)
+        reachable_iids = set()
+        rc_stack = list(result_accumdata.rc_parents)
+        while rc_stack:
+            rcommit = rc_stack.pop()
+            if rcommit.iid not in reachable_iids:
+                reachable_iids.add(rcommit.iid)
+                rc_stack.extend(rcommit.parents)
 
         not_merged_rcommits = {
             iid: rcommit
-            for iid, rcommit in all_commits_prev_branch.items()
-            if rcommit.is_explicit and iid not in all_commits_in_this_branch
+            for iid, rcommit in (
+                self.rcommits.items() if prev_branch is not None else ())
+            if rcommit.is_explicit and iid not in reachable_iids
         }
 
         # Get info about latest build in current branch - it will be a parent build
